@@ -271,8 +271,11 @@ def projection(F, ob, cfg):
     if ev is not None:
         # normalised weights scale by sqrt(eigenvalue)
         sq = np.array([F.sqrt(e) for e in ev], dtype=object if F.sym else float)
-        inst_n = m.instance(w.copy(), normalized_weights=True)
-        ob.eq("normalized_weights", vec(inst_n), mean + (w * sq).dot(U))
+        w_snap = K.snapshot(w)
+        inst_n = m.instance(w, normalized_weights=True)
+        K.same_terms(F, ob, "normalized_weights.caller_array_untouched", w_snap, w)
+        ob.eq("normalized_weights", vec(inst_n), mean + (np.array(w_snap[0], dtype=w.dtype).reshape(w.shape) * sq).dot(U))
+        ob.eq("normalized_weights.repeatable", vec(m.instance(w, normalized_weights=True)), vec(inst_n))
         c0 = m.component(0, with_mean=True, scale=2.0)
         ob.eq("component.scaled", vec(c0), mean + U[0] * (sq[0] * 2.0))
         ob.eq("component.plain", vec(m.component(0, with_mean=False)), U[0])
